@@ -813,3 +813,50 @@ Lemma fixed2_on_witnesses :
   trashes (fst (m_out proofs.C05_witness.w_f10)) = [] /\ trashes (fst (m_out proofs.C05_witness.w_f12)) = [] /\
   snd (m_out proofs.C05_witness.w_f8) = true.
 Proof. vm_compute. auto 10. Qed.
+
+(* ---------- the clauses of the specification, one by one, for the model's output ---------- *)
+Section Clauses.
+Variable c : case.
+Hypothesis Hwf : wf_b c = true.
+Let eff := setup (c_raw c) (c_sro c).
+Let tr := trashes (fst (m_out c)).
+Let pl := pulls (fst (m_out c)).
+
+Lemma spec_of_model : Spec c tr pl (snd (m_out c)).
+Proof using Hwf.
+  pose proof (fixed2_meets_spec c Hwf) as H. unfold tr, pl. destruct (m_out c) as [chs lost]. exact H.
+Qed.
+
+Theorem trash_old_writable_only m t : In (m, t) tr ->
+  In (m, t) (c_repl c) /\ t < c_min c /\ exists x, In x eff /\ mid x = m /\ mro x = false.
+Proof using Hwf. intros H. destruct spec_of_model as (A & _). exact (A m t H). Qed.
+
+Theorem no_trash_when_underreplicated k d : In (k, d) (c_desired c) -> 0 < d ->
+  phys_repl (c_dflt c) k eff (held eff (c_repl c)) < d -> tr = [].
+Proof using Hwf. intros H1 H2 H3. destruct spec_of_model as (_ & A & _). exact (A k d H1 H2 H3). Qed.
+
+Theorem trash_preserves_replication k d : In (k, d) (c_desired c) -> 0 < d ->
+  Nat.min d (phys_repl (c_dflt c) k eff (held eff (c_repl c))) <= phys_repl (c_dflt c) k eff (after eff (c_repl c) tr).
+Proof using Hwf. intros H1 H2. destruct spec_of_model as (_ & _ & A & _). exact (A k d H1 H2). Qed.
+
+Theorem pull_targets_ok m f : In (m, f) pl ->
+  (exists x, In x eff /\ mid x = m /\ mro x = false) /\ (forall t, ~ In (m, t) (c_repl c)) /\
+  exists i t x, In (i, t) (c_repl c) /\ In x (c_raw c) /\ mid x = i /\ msrv x = f.
+Proof using Hwf. intros H. destruct spec_of_model as (_ & _ & _ & A & _). exact (A m f H). Qed.
+
+Theorem lost_reported : c_repl c = [] -> (exists k d, In (k, d) (c_desired c) /\ 0 < d) -> snd (m_out c) = true.
+Proof using Hwf. intros H1 H2. destruct spec_of_model as (_ & _ & _ & _ & A). exact (A H1 H2). Qed.
+End Clauses.
+
+(* the effective (post-cleanupMounts) writable mount of a trash/pull is a mount reported writable on a
+   service that is not read-only *)
+Lemma eff_writable_raw raw sro x : In x (setup raw sro) -> mro x = false ->
+  exists r, In r raw /\ mid r = mid x /\ msrv r = msrv x /\ mro r = false /\ ~ In (msrv r) sro.
+Proof. apply setup_raw. Qed.
+
+(* well-formed cases with trash, pull and lost outcomes; and the witnesses of the old findings *)
+Lemma main_examples :
+  wf_b proofs.C05_witness.ex_ok1 = true /\ trashes (fst (m_out proofs.C05_witness.ex_ok1)) = [(3, 12)] /\
+  wf_b proofs.C05_witness.ex_ok2 = true /\ pulls (fst (m_out proofs.C05_witness.ex_ok2)) = [(1, 1)] /\ trashes (fst (m_out proofs.C05_witness.ex_ok2)) = [] /\
+  wf_b proofs.C05_witness.ex_ok3 = true /\ snd (m_out proofs.C05_witness.ex_ok3) = true.
+Proof. vm_compute. auto 10. Qed.
